@@ -55,6 +55,7 @@ type VC struct {
 	depth      int
 	sortFlush  int
 	axiomsDone bool
+	Variant    string
 	extraHeaps map[string]string
 	extraOrder []string
 }
@@ -146,7 +147,7 @@ func (vc *VC) strConst(s string) string {
 // oblige records a proof obligation at the current point.
 func (vc *VC) oblige(kind, anchor, guard, goal, pos, desc string) *Obligation {
 	vc.flushSortDecls()
-	base := fmt.Sprintf("%s#%s:%s", FuncName(vc.Fn), kind, anchor)
+	base := fmt.Sprintf("%s%s#%s:%s", FuncName(vc.Fn), strings.ReplaceAll(vc.Variant, "#", "~"), kind, anchor)
 	vc.names[base]++
 	name := base
 	if vc.names[base] > 1 {
